@@ -45,8 +45,9 @@ def scratch_root():
 
 def build_mini_tables(root):
     """reduced copy of the bundled tables: the rows the pool needs, unchanged"""
-    need_b = {1001, 1002, 2001, 5002, 8023, 8024, 10, 12101, 12001, 33007, X, LOCAL} | {31000, 31001, 31002, 31021, 31031}
-    need_d = {301001}
+    need_b = {1001, 1002, 2001, 5002, 8023, 8024, 10, 12101, 12001, 33007, X, LOCAL} | {31000, 31001, 31002, 31021, 31031} \
+        | {4001, 4002, 4003, 4004, 4005, 6002}
+    need_d = {301001, 301011, 301012, 301023, 301025}
     if os.path.isdir(root):
         shutil.rmtree(root)
     for v in VERSIONS:
@@ -200,6 +201,71 @@ def pool2():
     return out
 
 
+_POOL3 = None
+FAILING3 = ('Tq1', 'Tq2', 'TqN', 'Tqc', 'Tq2r', 'Tqd')
+
+
+def pool3():
+    """Failure pool (all master version 33): messages built from Table D sequences (plain, inside replications, nested,
+    compressed), each also cut short so that decoding FAILS at a point inside a sequence / a replication / a nested
+    sequence; encodes that fail because the data end early or a value does not fit.  A failure must not leave anything
+    behind in the decoder / encoder object or in the shared, cached table entries the later valid messages use."""
+    global _POOL3
+    if _POOL3 is not None:
+        return _POOL3
+    Bv, Dv = tables.load(33, None)
+    defs = [
+        ('Q', [301001, 12101, 301011], 1, False),
+        ('Q2', [102002, 301001, 12101, 5002], 2, False),
+        ('Qc', [301001, 12101, 301011], 2, True),
+        ('QN', [301025, 301001], 1, False),
+        ('Qd', [1001, 101000, 31001, 301011, 301001], 1, False),
+    ]
+    out = []
+    for name, descs, nsub, comp in defs:
+        cnt = [0]
+
+        def ch(info):
+            cnt[0] += 1
+            if info.get('role') == 'factor':
+                v = 2
+            else:
+                v = (5 * cnt[0] + 3) % ((1 << info['width']) - 1)
+            if comp:
+                return [v] * nsub if info.get('role') else [min(v + k, (1 << info['width']) - 2) for k in range(nsub)]
+            return v
+        buf, subs, notes, nb = codec.encode(Bv, Dv, descs, nsub, comp, ch)
+        assert not notes, (name, notes)
+        out.append((name, message.build(message.Spec(meta={'master_table_version': 33}, descs=descs, nsub=nsub, compressed=comp), buf)[0]))
+    byname = dict(out)
+    out.append(('Tq1', byname['Q'][:-4 - 7]))      # data end inside 301001 (the first sequence)
+    out.append(('Tq2', byname['Q'][:-4 - 2]))      # ... inside 301011 (the last sequence)
+    out.append(('TqN', byname['QN'][:-4 - 5]))     # ... inside 301012 inside 301025 (nested sequence)
+    out.append(('Tqc', byname['Qc'][:-4 - 4]))     # compressed, inside the last sequence
+    out.append(('Tq2r', byname['Q2'][:-4 - 9]))    # inside the second subset, sequence inside a replication
+    out.append(('Tqd', byname['Qd'][:-4 - 3]))     # sequence inside a delayed replication, second repetition
+    _POOL3 = out
+    return out
+
+
+OPS3 = None
+
+
+def ops3():
+    global OPS3
+    if OPS3 is None:
+        P = pool3()
+        byname = dict(P)
+        o = [('D:' + n, 'D', b) for n, b in P]
+        o += [('E:' + n, 'E', byname[n]) for n in ('Q', 'Qc', 'QN', 'Qd')]
+        # failing encodes: the data of the first subset end early (Ef) / the first value of the last sequence does not fit (Ev)
+        o += [('Ef:' + n, 'Ef', byname[n]) for n in ('Q', 'QN', 'Qc')]
+        o += [('Ev:' + n, 'Ev', byname[n]) for n in ('Q', 'Q2')]
+        o += [('R:' + n, 'R', byname[n]) for n in ('Q', 'QN')]
+        OPS3 = o
+    return OPS3
+
+
 OPS2 = None
 
 
@@ -218,7 +284,7 @@ def ops2():
 
 
 def _ops_of(which):
-    return ops2() if which == 'opstate' else ops()
+    return ops2() if which == 'opstate' else (ops3() if which == 'failures' else ops())
 
 
 QUERIES = ['/%06d' % X, '>002001', '@[0]/005002', '/005002.D05002', '/101000.031001']
@@ -281,6 +347,14 @@ class World(object):
         if kind == 'E':
             # the input of the encoder is fixed data (computed once by an unrelated decoder), not a product of the history
             return self.enc.process(json.loads(FLAT[b]), wire_template_data=False).serialized_bytes.hex()
+        if kind in ('Ef', 'Ev'):
+            data = json.loads(FLAT[b])
+            rows = data[-2][-1]             # data section: [length, reserved, [[values of subset 0], ...]]
+            if kind == 'Ef':
+                del rows[0][-2:]
+            else:
+                rows[0][-3] = 10 ** 9
+            return self.enc.process(data, wire_template_data=False).serialized_bytes.hex()
         m = self.dec.process(b)
         if kind == 'Q':
             from pybufrkit.dataquery import DataQuerent, NodePathParser
@@ -317,7 +391,7 @@ FLAT = {}
 
 
 def _all_pool():
-    return pool() + pool2()
+    return pool() + pool2() + pool3()
 
 
 def flat_main(argv):
@@ -502,6 +576,18 @@ def golden_checks2(gold):
     return pre
 
 
+def golden_checks3(gold):
+    pre = Partial()
+    for k, (oname, kind, b) in enumerate(ops3()):
+        pre.n['exec'] += 1
+        fails = oname.split(':')[1] in FAILING3 or kind in ('Ef', 'Ev')
+        pre.outcome((kind, gold[k][:4] == 'EXC '))
+        if (gold[k][:4] == 'EXC ') != fails:
+            pre.violation('golden|%s' % oname, {'op': oname, 'pool': 'failures'}, 'in a fresh process %s gives %s' % (oname, gold[k][:80]))
+    pre.n['nodes'], pre.n['edges'] = len(ops3()) + 1, len(ops3())
+    return pre
+
+
 def replay(part, case):
     root = build_mini_tables(scratch_root() + '_replay_%d' % os.getpid())
     try:
@@ -515,6 +601,9 @@ def replay(part, case):
             p.viol = [v for v in p.viol if v['case']['op'] == case['op']]
         elif part == 'goldens-opstate':
             p = golden_checks2(goldens(root, 'opstate'))
+            p.viol = [v for v in p.viol if v['case']['op'] == case['op']]
+        elif part == 'goldens-failures':
+            p = golden_checks3(goldens(root, 'failures'))
             p.viol = [v for v in p.viol if v['case']['op'] == case['op']]
         else:
             which = case.get('pool', 'main')
@@ -572,6 +661,22 @@ def main(tier, seed):
             rep.add_part('opstate-cc%s' % ccache, p,
                          bounds={'operations': n2, 'max_length': maxlen2, 'histories': len(hists2), 'compiled_cache': ccache,
                                  'pool': 'messages that end or fail with operator state in force, then plain messages'})
+        gold_f = goldens(root, 'failures')
+        if gold_f != goldens(root, 'failures'):
+            print('HARNESS-ERROR property=C13 golden observations (failure pool) differ between two fresh processes')
+            return 2
+        rep.add_part('goldens-failures', golden_checks3(gold_f), bounds={'operations': len(ops3())})
+        n3 = len(ops3())
+        maxlen3 = 3 if tier == 'quick' else 4
+        hists3 = [h for L in range(1, maxlen3 + 1) for h in itertools.product(range(n3), repeat=L)]
+        for ccache in ((None, 1) if tier == 'quick' else (None, 1, 3)):
+            p = merge_all(run_shards(run_histories, [(root, s_, [(3, ccache)], gold_f, 'failures') for s_ in split(hists3, 64)]))
+            p.sample({'operations': [o[0] for o in ops3()], 'history': [ops3()[j][0] for j in hists3[len(hists3) // 2]]})
+            rep.add_part('failures-cc%s' % ccache, p,
+                         bounds={'operations': n3, 'max_length': maxlen3, 'histories': len(hists3), 'compiled_cache': ccache,
+                                 'pool': 'decodes that fail inside a sequence / replication / nested sequence, encodes that fail '
+                                         'because data end early or a value does not fit, then valid messages over the same '
+                                         'sequences'})
         if tier == 'thorough':
             h5 = [h for h in itertools.product(range(n), repeat=5) if h[0] <= 8]       # every history of 5 that starts with a decode
             p = merge_all(run_shards(run_histories, [(root, s, [(2, 1)], gold) for s in split(h5, 128)]))
